@@ -230,6 +230,10 @@ def _cases(tier, seed):
 
 
 FIXED = [
+    # a class re-exported by its package; the package and the defining module bind the same name to different objects
+    ({'pkg/__init__.py': 'from .other import Z as util\nfrom ._impl import Foo\n__all__ = ["Foo"]\n', 'pkg/helpers.py': 'class H:\n    "doc"\n', 'pkg/other.py': 'class Z:\n    "doc"\n',
+      'pkg/_impl.py': 'from .helpers import H as util\nclass Foo:\n    "doc"\n    def m(self): "doc"\nclass Stay:\n    def n(self): "doc"\n'},
+     ['pkg.helpers', 'pkg.other', 'pkg._impl', 'pkg']),
     # two roots; the second one re-exports a class of its private module, the first one imports it from where it is defined
     ({'alpha/__init__.py': '', 'alpha/use.py': 'from beta._core import Wheel\nfrom beta._core import Wheel as W2\nimport beta._core as core\nclass Car:\n    from beta._core import Wheel as Inner\n    class Nest: pass\n',
       'beta/__init__.py': 'from beta._core import Wheel\n__all__ = ["Wheel"]\n', 'beta/_core.py': 'class Wheel:\n    def spin(self): pass\ndef unrelated(): pass\n',
@@ -307,8 +311,13 @@ def _check(case):
                 checked += 1
                 got = ctx.resolveName(name)
                 if got is not None and pid_(got) != target:
+                    # (witness of KF-C04-scope-of-moved-class: the scope is a class that a re-export moved under another module, and the
+                    #  name is one that the class body does not bind itself)
+                    moved_scope = isinstance(ctx, model.Class) and ctx.parent is not None and str(ctx.source_path) != str(getattr(ctx.parent, 'source_path', None)) \
+                        and name.split('.')[0] not in ctx.contents and name.split('.')[0] not in getattr(ctx, '_localNameToFullName_map', {})
                     fails.append({'observed': f'in {scope}, {name!r} resolves to {got.fullName()} ({pid_(got)}) but Python binds it to {target}',
-                                  'required': 'the object the name denotes when the project is imported', 'class': 'wrong-object'})
+                                  'required': 'the object the name denotes when the project is imported', 'class': 'wrong-object' + ('+moved-scope' if moved_scope else ''),
+                                  'moved_scope': bool(moved_scope)})
                 if got is None:
                     # must resolve: imported directly from the defining module, or reached through a module alias
                     first = name.split('.')[0]
@@ -340,6 +349,26 @@ def _check(case):
                     if direct or via_alias or direct_star:
                         fails.append({'observed': f'in {scope}, {name!r} (Python: {target}) does not resolve', 'required': 'always resolves',
                                       'class': 'unresolved'})
+        # the names of the enclosing module seen from inside its classes (hand-written projects): inside a class body / its methods a
+        # name that the class does not bind itself denotes what the *defining* module binds it to - also after the class was re-exported
+        if 'fixed' in case:
+            for scope, names in runtime.items():
+                if scope in order:
+                    continue
+                modname = next((m for m in sorted(order, key=len, reverse=True) if scope.startswith(m + '.')), None)
+                cls_target = runtime.get(modname, {}).get(scope[len(modname) + 1:]) if modname else None
+                ctx = by_id.get(cls_target) if cls_target else None
+                if not isinstance(ctx, model.Class):
+                    continue
+                for name, target in runtime[modname].items():
+                    if '.' in name or name in names:
+                        continue
+                    got = ctx.resolveName(name)
+                    if got is not None and pid_(got) != target:
+                        moved_scope = str(ctx.source_path) != str(getattr(ctx.parent, 'source_path', None))
+                        fails.append({'observed': f'in class {ctx.fullName()} (defined as {scope}), {name!r} resolves to {got.fullName()} ({pid_(got)}) but Python binds it to {target}',
+                                      'required': 'the object the name denotes when the project is imported', 'class': 'wrong-object-in-class' + ('+moved-scope' if moved_scope else ''),
+                                      'moved_scope': bool(moved_scope)})
         # ... or not at all: a definition of the project that a module namespace does not bind at run time must not resolve there
         all_defs = {by_id[t].name: t for names in runtime.values() for t in names.values()
                     if t in by_id and not isinstance(by_id[t], model.Module)}
